@@ -227,6 +227,43 @@ def install_clock(rb: _Rebinder, clock: SimClock) -> int:
 
 
 # --------------------------------------------------------------------------------------
+# resource usage
+# --------------------------------------------------------------------------------------
+class _SimRusage:
+    """What the SUT's statistics see instead of the real peak RSS: the real one depends on the history of the worker
+    process, and its decimal representation ends up (as text of varying length) inside the autosave file."""
+
+    ru_maxrss = 123456
+
+    def __getattr__(self, name: str) -> Any:
+        return 0
+
+
+def install_rusage(rb: _Rebinder) -> int:
+    try:
+        import resource
+    except ImportError:  # pragma: no cover
+        return 0
+    real = resource.getrusage
+    fake = lambda who=0: _SimRusage()  # noqa: E731
+    n = 0
+    for m in _sut_modules():
+        ns = m.__dict__
+        for name, val in list(ns.items()):
+            if val is real:
+                rb.set(ns, name, fake)
+                n += 1
+            elif val is resource:
+                class _Res:
+                    def __getattr__(self, nm: str) -> Any:
+                        return fake if nm == "getrusage" else getattr(resource, nm)
+
+                rb.set(ns, name, _Res())
+                n += 1
+    return n
+
+
+# --------------------------------------------------------------------------------------
 # uuid
 # --------------------------------------------------------------------------------------
 class SimUUID:
@@ -546,7 +583,7 @@ class World:
         self.run_id = run_id
         self.log = EventLog(keep=keep_events)
         self.clock = SimClock(epoch)
-        self.root = os.path.join(SIM_ROOT, f"{os.getpid()}_{run_id}")
+        self.root = os.path.join(SIM_ROOT, f"{os.getpid():08d}_{run_id}")  # fixed length: the path is part of the pickled solver state, so its length must not vary
         self.n_inc = 0
         self.uuid_seed = 1
 
@@ -577,6 +614,7 @@ class World:
         try:
             os.chdir(d)
             install_clock(inc.rb, self.clock)
+            install_rusage(inc.rb)
             if fs:
                 install_disk(inc.rb, inc.disk)
             inc.rb.setattr(_uuid_mod, "uuid1", simuuid.uuid1)
